@@ -14,6 +14,9 @@ def _assert_repo():
 def main():
     _assert_repo()
     argv = sys.argv[1:]
+    if argv and argv[0] == "_digests":
+        from hsim.selftest import digests_main
+        return digests_main(argv[1:])
     if argv and argv[0].startswith("selftest"):
         from hsim.selftest import main as st_main
         return st_main(argv)
